@@ -278,6 +278,8 @@ class Rig(object):
 
     def __init__(self, workdir=None):
         quiet()
+        import keygen_cap
+        keygen_cap.install()
         self.dir = tempfile.mkdtemp(prefix="vsess", dir=workdir)
         self.db = os.path.join(self.dir, "db.sqlite")
         self.engine = engine_mod.KmipEngine(policies=copy.deepcopy(core_policy.policies), database_path=self.db)
